@@ -111,7 +111,7 @@ def run(ck):
     X.require_coverage(ck, [X.WAIT_KEY, X.DUMP_KEY], 'lock-step runs')
     b.flush()
     from . import execproc
-    execproc.failure_runs(ck, ck.n(8, 60))
+    execproc.failure_runs(ck, ck.n(10, 60))
 
 
 def replay(obj):
